@@ -229,7 +229,15 @@ class CallMixin:
                 return d
             src_arr = self.st.mem[sr.id]
             dst_arr = self.st.mem[dr.id]
-            if cc is not None and cc <= SMALL_COPY:
+            ext_ = self._lit_extent(doff, dlen, soff, slen)
+            if cc is None and ext_ is not None:
+                # literal positions, symbolic count: element t is copied iff t < cnt (all array indices stay literal)
+                do, so, mx = ext_
+                vals = [z3.Select(src_arr, bv(so + t, 64)) for t in range(mx)]
+                for t, v in enumerate(vals):
+                    keep = z3.Select(dst_arr, bv(do + t, 64))
+                    dst_arr = z3.Store(dst_arr, bv(do + t, 64), z3.If(z3.ULT(bv(t, 64), cnt), v, keep))
+            elif cc is not None and cc <= SMALL_COPY:
                 vals = [z3.Select(src_arr, soff + bv(i, 64)) for i in range(cc)]
                 for i, v in enumerate(vals):
                     dst_arr = z3.Store(dst_arr, doff + bv(i, 64), v)
@@ -261,6 +269,22 @@ class CallMixin:
             v = z3.Concat(*reversed(chunk)) if len(chunk) > 1 else chunk[0]
             self._put(dr, doff + bv(i, 64), v)
         return d
+
+    def _lit_extent(self, doff, dlen, soff=None, slen=None):
+        """(dst offset, src offset, max element count) when offsets and region lengths are literals and the extent is small"""
+        do, dl = concrete(doff), concrete(dlen)
+        if do is None or dl is None or do > dl:
+            return None
+        mx = dl - do
+        so = None
+        if soff is not None:
+            so, sl = concrete(soff), concrete(slen)
+            if so is None or sl is None or so > sl:
+                return None
+            mx = min(mx, sl - so)
+        if mx > 64:
+            return None
+        return do, so, mx
 
     def _put(self, r, idx, v):
         if r.kind == 'cell':
@@ -303,7 +327,13 @@ class CallMixin:
             self._put(dr, doff, val)
             return d
         arr = self.st.mem[dr.id]
-        if cc is not None and cc <= SMALL_COPY:
+        ext_ = self._lit_extent(doff, dlen)
+        if cc is None and ext_ is not None:
+            do, _so, mx = ext_
+            for t in range(mx):
+                keep = z3.Select(arr, bv(do + t, 64))
+                arr = z3.Store(arr, bv(do + t, 64), z3.If(z3.ULT(bv(t, 64), cnt), val, keep))
+        elif cc is not None and cc <= SMALL_COPY:
             for i in range(cc):
                 arr = z3.Store(arr, doff + bv(i, 64), val)
         else:
@@ -413,6 +443,8 @@ class CallMixin:
         ctx.result = self.wrap_arg(result, rct) if result is not None else None
         # 5. postconditions become facts
         for en, etext in c.ensures.items():
+            if en.startswith('spec_'):
+                continue      # stated and proved for the callee, not needed by callers (kept out of their queries)
             self.assume(tr.clause(etext))
         self.st.version += 1
         return result
@@ -514,8 +546,19 @@ class CallMixin:
             old = self.st.mem[r.id]
             fr = self.fresh(r.name, arr_sort(r.bits))
             whole = z3.simplify(z3.And(off == 0, n == r.length))
-            if z3.is_true(whole):
+            ext_ = self._lit_extent(off, r.length)
+            if z3.is_true(whole) and ext_ is None:
                 self.st.mem[r.id] = fr
+            elif ext_ is not None:
+                do, _so, mx = ext_
+                nc = concrete(n)
+                arr = old
+                for t in range(mx if nc is None else min(mx, nc)):
+                    nv = z3.Select(fr, bv(do + t, 64))
+                    if nc is None:
+                        nv = z3.If(z3.ULT(bv(t, 64), n), nv, z3.Select(old, bv(do + t, 64)))
+                    arr = z3.Store(arr, bv(do + t, 64), nv)
+                self.st.mem[r.id] = arr
             else:
                 k = z3.BitVec('k!hv%d' % self.fresh_id(), 64)
                 self.st.mem[r.id] = z3.Lambda([k], z3.If(z3.And(z3.UGE(k, off), z3.ULT(k - off, n)), z3.Select(fr, k), z3.Select(old, k)))
